@@ -172,6 +172,71 @@ def is_public(f):
     return f.get('access') in (None, 'public', 'none')
 
 
+DBV = 'rkcommon::utility::DoubleBufferedValue'
+
+
+def dbv_member(tu):
+    """name of the DoubleBufferedValue<T> member that replaces queuedValue / currentValue (back() = queued slot, guarded by the
+    mutex; front() = current slot, consumer-confined; swap() = install), else None"""
+    return tu.__dict__.get('_c12_dbv')
+
+
+def slot_of(tu, sy, e, refs=None):
+    """'queued' | 'current' | None for an expression that designates one of the two value slots of a TransactionalValue: the
+    members queuedValue / currentValue, values.back() / values.front() of a DoubleBufferedValue member, or a local reference
+    bound to one of those"""
+    e = sy.unwrap_move(e) if e is not None else None
+    if e is None:
+        return None
+    fld = sy.field(e)
+    if fld is not None and fld[0] == VAL and sy.base_is_this(e):
+        return {'queuedValue': 'queued', 'currentValue': 'current'}.get(fld[1])
+    m = dbv_member(tu)
+    if m is not None and e.get('kind') == 'CXXMemberCallExpr':
+        s_, obj, _a = tu.call_parts(e)
+        if obj is not None and sy.field(obj) == (VAL, m) and sy.base_is_this(obj) and s_.get('rec') == DBV:
+            return {'back': 'queued', 'front': 'current'}.get(last(s_.get('q')))
+    v = sy.local_var(e)
+    if refs and v in refs:
+        return refs[v]
+    return None
+
+
+def is_slot_swap(tu, sy, n):
+    """values.swap() of the DoubleBufferedValue member: the queued slot becomes the current one"""
+    m = dbv_member(tu)
+    if m is None or n is None or n.get('kind') != 'CXXMemberCallExpr':
+        return False
+    s_, obj, _a = tu.call_parts(n)
+    return obj is not None and sy.field(obj) == (VAL, m) and sy.base_is_this(obj) and s_.get('rec') == DBV and last(s_.get('q')) == 'swap'
+
+
+def slot_refs(tu, sy, fns):
+    """local references bound to a slot (`T &q = values.back();`): variable -> slot"""
+    refs = {}
+    for fn in fns:
+        for x in tu.walk(tu.body(fn)) if tu.body(fn) is not None else ():
+            if x.get('kind') == 'VarDecl' and 'id' in x and (x.get('type', {}).get('qualType') or '').rstrip().endswith('&') and tu.kids(x):
+                sl = slot_of(tu, sy, tu.kids(x)[-1])
+                if sl is not None:
+                    refs[x['id']] = sl
+    return refs
+
+
+def generic_write(tu, n):
+    """(lhs, rhs) of an assignment, built-in or through a (non-atomic) operator="""
+    if n is None:
+        return None
+    if n.get('kind') == 'BinaryOperator' and n.get('opcode') == '=':
+        ks = tu.kids(n)
+        return ks[0], ks[1]
+    if n.get('kind') == 'CXXOperatorCallExpr' and last(tu.sd(n).get('q')) == 'operator=' and tu.sd(n).get('rec') not in ('std::atomic', 'std::__atomic_base'):
+        ks = tu.kids(n)
+        if len(ks) == 3:
+            return ks[1], ks[2]
+    return None
+
+
 def exit_at(res, via):
     ents = [k for k in res.pred if k[0] == via]
     return ents[0] if ents else None
@@ -184,6 +249,7 @@ def lock_step(sy, rec, T, locks, known, ev, n, found, rule):
             if m is not None and m[0] == rec:
                 ce = sy.tu.strip(sy.tu.kids(v)[-1])
                 arg = sy.tu.kids(ce)[0] if ce is not None and sy.tu.kids(ce) else None
+                arg = sy.mutex_expr(arg) if arg is not None else None      # through `*ptr` / an accessor of this object
                 if arg is None or not sy.base_is_this(arg):
                     found.und(rule, 'lock taken on the mutex of another object: not modelled', n)
     locks2, known2, prob = LockState.apply(locks, known, ev)
@@ -230,6 +296,7 @@ def check_guarded(ctx, tu, sy, rec, T, f, counts):
             found.und(rule, 'non-public member accesses a guarded member without taking the lock itself; whether every caller holds '
                       'it is not modelled', node)
 
+    srefs = slot_refs(tu, sy, inl.reachable_fns(f)) if rec == VAL else {}
     # 3. guarded members used inside a nested closure that is not invoked directly are outside the explored CFGs
     reach = inl.reachable_fns(f)
     reach_ids = {x['id'] for x in reach}
@@ -261,6 +328,25 @@ def check_guarded(ctx, tu, sy, rec, T, f, counts):
                 else:
                     unlocked(R1, fn_short(cur_fn()), '%s-unlocked' % ev[1][1], 'the atomic member %s is written outside a lock scope of %s; the flag and '
                              'the queued value must change together' % (ev[1][1], T['mutex']), n)
+            return [st]
+        if rec == VAL and dbv_member(tu) is not None and n.get('kind') in ('CXXMemberCallExpr', 'DeclRefExpr'):
+            sl = slot_of(tu, sy, n, srefs) if n.get('kind') == 'CXXMemberCallExpr' else srefs.get(n.get('referencedDecl', {}).get('id'))
+            swp = is_slot_swap(tu, sy, n)
+            if sl == 'queued' or swp:
+                nacc[0] += 1
+                if not LockState.holds(locks, mutex):
+                    what = ('%s.swap() exchanges the queued and the current slot' % dbv_member(tu)) if swp else \
+                        ('%s.back() selects the queued slot (it reads the slot index that update() flips under the mutex)' % dbv_member(tu)
+                         if n.get('kind') == 'CXXMemberCallExpr' else 'the queued slot is used through the local reference `%s`'
+                         % n.get('referencedDecl', {}).get('name'))
+                    unlocked(R1, fn_short(cur_fn()), 'queued-slot-unlocked', '%s on a path where no lock on %s is held: the producer can '
+                             'end up writing the slot the consumer is reading (the consumer swaps the slots in update()), and the '
+                             'unsynchronised read of the index is a data race' % (what, T['mutex']), n)
+            elif sl == 'current':
+                nacc[0] += 1
+                if name in T['producer']:
+                    found.viol(R1, fn_short(cur_fn()), 'current-slot-in-producer', 'the producer-side member %s touches the consumer-confined '
+                               'current slot (%s.front())' % (name, dbv_member(tu)), n)
             return [st]
         if n.get('kind') != 'MemberExpr':
             return [st]
@@ -869,6 +955,11 @@ def check_update(ctx, tu, sy, f, counts):
                 found.und(R3, 'update() writes currentValue from something other than queuedValue', node)
                 return [st]
             return [st]
+        if is_slot_swap(tu, sy, n):
+            if flag is not True:
+                found.viol(R3, FN, 'install-without-flag', 'update() swaps the queued slot in on a path where the flag was not observed set: '
+                           'the consumer can receive a stale value', n)
+            return [(locks, known, flag, True, True, rscope, vars_)]
         if k == 'CallExpr' and tu.sd(n).get('q') == 'std::swap':
             args = tu.kids(n)[1:]
             fs = {sy.field(a) for a in args}
@@ -1017,6 +1108,7 @@ def check_assign(ctx, tu, sy, f, counts):
         return (locks, known, False, False, done or (q and fl))
 
     throwers = []       # value stores of this assignment that can throw
+    arefs = slot_refs(tu, sy, inl.reachable_fns(f))
 
     def may_throw(node):
         """can the value store leave by an exception?  (built-in assignment cannot; a call can unless declared noexcept)"""
@@ -1043,6 +1135,9 @@ def check_assign(ctx, tu, sy, f, counts):
             return [st2]
         if own_call(tu, n, VAL):
             found.und(R4, 'assignment delegates to the member %s(): not modelled' % own_call(tu, n, VAL), n)
+        gw = generic_write(tu, n) if (dbv_member(tu) is not None and (ev is None or ev[0] == 'call')) else None
+        if gw is not None and slot_of(tu, sy, gw[0], arefs) == 'queued':
+            ev = ('store', QUEUED, None, 5, n)
         if ev is not None and ev[0] == 'store':
             _k, fld, val, order, node = ev
             if fld == FLAG:
@@ -1065,6 +1160,8 @@ def check_assign(ctx, tu, sy, f, counts):
                 found.und(R4, 'assignment stores something other than true to the flag', node)
             elif fld == QUEUED:
                 w = sy.plain_write(node)
+                if w is None and generic_write(tu, node) is not None:
+                    w = (QUEUED,) + generic_write(tu, node)
                 if w is not None and params and mentions_any(sy, w[2], params):
                     if may_throw(node):
                         throwers.append('(%s)' % (tu.sd(node).get('q') or 'payload assignment'))
@@ -1449,6 +1546,43 @@ def check_lockable(ctx, tu, sy, rec, T, mtype, counts):
     Returns True when the member can be treated as a lock by the other rules."""
     counts[R5] += 1
     inst = '%s::%s : %s' % (T['short'], T['mutex'], mtype)
+    holder = None
+    m_ = re.match(r'^(?:std::unique_ptr|std::shared_ptr)<(.+?)(?:, .*)?>$', mtype) or re.match(r'^(.+?) ?[*&]$', mtype)
+    if m_ is not None:
+        holder, mtype = mtype, m_.group(1).strip()
+    if holder is not None:
+        # the mutex is reached through a pointer / reference member: all threads must meet at the *same* mutex object, so the
+        # member may only be set up before the object is shared (constructors, move operations: setup time) - a member
+        # function that creates or replaces it while others may be calling is the recognised-wrong form (lazy creation)
+        bad = False
+        seen = set()
+        fns = [f for f in tu.functions.values() if f.get('rec') == rec and not f.get('ctor') and not f.get('dtor')
+               and not f.get('assign') and tu.body(f) is not None]
+        for f in fns:
+            if f['dep'] and any(not g_['dep'] and g_.get('pat') == f['id'] for g_ in tu.functions.values()):
+                continue            # the instantiations are looked at instead of the pattern
+            for x in tu.walk(tu.body(f)):
+                if 'id' not in x or x.get('kind') not in ('CXXMemberCallExpr', 'CXXOperatorCallExpr', 'BinaryOperator'):
+                    continue
+                target = None
+                if x.get('kind') == 'BinaryOperator' and x.get('opcode') == '=':
+                    target = tu.kids(x)[0]
+                elif x.get('kind') != 'BinaryOperator':
+                    s_, obj, _a = tu.call_parts(x)
+                    if last(s_.get('q')) in ('reset', 'release', 'swap', 'operator='):
+                        target = obj
+                if target is not None and sy.field(target) == (rec, T['mutex']) and fn_short(f) not in seen:
+                    seen.add(fn_short(f))
+                    bad = True
+                    ctx.violation(R5, inst, 'the mutex object behind %s (%s) is created / replaced in the member function %s, which '
+                                  'threads call concurrently (unsynchronised check-and-create): two first callers each create their own '
+                                  'mutex, the second assignment destroys the one the first caller holds - for that overlap there is no '
+                                  'mutual exclusion on the guarded members, and the first caller unlocks freed memory. Create the mutex '
+                                  'in the constructor (or keep it by value)' % (T['mutex'], holder, fn_short(f)), tu.loc(x),
+                                  key='%s|%s|%s|lock-object-replaced' % (R5, T['file'], fn_short(f)),
+                                  path=['%s: %s' % (tu.loc(x), tu.show(x))])
+        if not bad:
+            ctx.ok(R5, inst + ' (identity)', 'the mutex behind %s is set up only by constructors / move operations' % holder, T['file'])
     if mtype in TRUSTED_MUTEXES:
         ctx.ok(R5, inst, 'standard mutex: unlock() synchronizes-with the next lock() (trusted contract)', T['file'])
         return True
@@ -1629,6 +1763,13 @@ def check_tu(ctx, tu, counts):
         lock_checked = set()
         for r in recs:
             names = {x['name']: x['ct'] for x in r.get('fields', [])}
+            dbvs = [x_ for x_, ct_ in names.items() if ct_.startswith(DBV + '<')]
+            if rec == VAL and not want <= set(names) and want - set(names) <= {'queuedValue', 'currentValue'} and len(dbvs) == 1:
+                # the two value slots live in a DoubleBufferedValue member: back() is the queued slot (guarded by the mutex),
+                # front() the current slot (consumer-confined), swap() the install
+                tu.__dict__['_c12_dbv'] = dbvs[0]
+                T = dict(T, guarded=tuple(g_ for g_ in T['guarded'] if g_ in names), confined={})
+                want = set(T['guarded']) | {T['mutex']}
             if not want <= set(names):
                 if rec == VAL and want - set(names) == {'newValue'} and check_counter_indicator(ctx, tu, sy, rec, T, [r]):
                     # the flag was replaced by a recognised-wrong pending test: reported; the other rules need the flag
@@ -1644,6 +1785,8 @@ def check_tu(ctx, tu, counts):
             if rec == VAL:
                 check_indicator_type(ctx, tu, rec, T, r, names, counts)
             for extra in sorted(set(names) - want):
+                if rec == VAL and extra == dbv_member(tu):
+                    continue
                 if is_atomic_type(names[extra]) and atomic_mirror(tu, sy, rec, T, extra):
                     # contradiction rule: the code itself writes this atomic under the mutex somewhere, i.e. it mirrors guarded
                     # state; every other write has to be under the same mutex (loads stay exempt)
